@@ -22,3 +22,133 @@ Proof. intros lines seq H. unfold marked_line. replace (seq <? Z.of_nat (length 
 
 Lemma marked_is_nth : forall lines seq, 0 <= seq < Z.of_nat (length lines) -> marked_line lines seq = nth_error lines (Z.to_nat seq).
 Proof. intros lines seq H. unfold marked_line. replace (0 <=? seq) with true by lia. replace (seq <? Z.of_nat (length lines)) with true by lia. reflexivity. Qed.
+
+(* ------------------------------------------------------------------ the marker invariant of single-script sessions *)
+From BV Require Import FrameProofs SessionProofs.
+From BV.Gen Require Import Consts Sites.
+
+Lemma decode_ops_fuel_enough : forall f pc, (length pc <= f)%nat -> decode_ops_fuel f pc = decode_ops pc.
+Proof.
+  assert (G: forall n pc f1 f2, (length pc <= n)%nat -> (length pc <= f1)%nat -> (length pc <= f2)%nat -> decode_ops_fuel f1 pc = decode_ops_fuel f2 pc).
+  { induction n as [|n IH]; intros pc f1 f2 Hn H1 H2.
+    - destruct pc; [|cbn in Hn; lia]. destruct f1, f2; reflexivity.
+    - destruct pc as [|b r]; [destruct f1, f2; reflexivity|].
+      destruct f1 as [|f1]; [cbn in H1; lia|]. destruct f2 as [|f2]; [cbn in H2; lia|]. cbn [decode_ops_fuel].
+      destruct (get_op (b :: r)) as [[op|] pc'] eqn:E; [|reflexivity].
+      pose proof (get_op_shorter _ _ _ E) as Hs. f_equal. apply IH; cbn [length] in *; lia. }
+  intros f pc H. unfold decode_ops. apply (G (length pc)); lia.
+Qed.
+
+Lemma decode_ops_cons : forall pc op pc', get_op pc = (Some op, pc') -> decode_ops pc = op :: decode_ops pc'.
+Proof.
+  intros pc op pc' H. pose proof (get_op_shorter _ _ _ H) as Hs.
+  unfold decode_ops at 1. destruct pc as [|b r]; [discriminate|]. cbn [length decode_ops_fuel]. rewrite H. f_equal.
+  apply decode_ops_fuel_enough. cbn [length] in Hs. lia.
+Qed.
+
+Lemma decode_ops_nil : decode_ops [] = [].
+Proof. reflexivity. Qed.
+
+Section Marker.
+Variable low_s : bytes -> bool.
+Variable tap_tweak_ok : bytes -> bytes -> bytes -> bool -> bool.
+Variable sha256 : bytes -> bytes.
+Variable c : cfg.
+Notation dbg_step := (dbg_step low_s tap_tweak_ok sha256).
+
+(* a session over one script: no pending scriptPubKey, no P2SH phase, no taproot commitment phase *)
+Definition single (v : ienv) : Prop := i_tce v = None /\ i_succ v = [] /\ i_p2sh v = false.
+
+(* the listing of such a session: one numbered line per operation of the script *)
+Definition plain_listing (s : bytes) : list str := number_from 0 (map (fun op => (true, op_line op)) (decode_ops s)).
+
+(* the position counter equals the number of operations that precede the program counter *)
+Definition marker_inv (v : ienv) : Prop :=
+  exists pre, decode_ops (e_script (i_e v)) = pre ++ decode_ops (i_pc v) /\ i_seq v = Z.of_nat (length pre).
+
+Lemma marker_inv_init : forall script stack ed, marker_inv (setup_env c script stack [] ed None).
+Proof. intros. exists []. split; reflexivity. Qed.
+
+(* the marked line is the rendering of the operation the next step fetches *)
+Theorem marker_designates_next_op : forall v op pc',
+  marker_inv v -> get_op (i_pc v) = (Some op, pc') ->
+  marked_line (plain_listing (e_script (i_e v))) (i_seq v) = Some (numbered (i_seq v) (op_line op)).
+Proof.
+  intros v op pc' [pre [Hd Hs]] Hg. unfold plain_listing.
+  rewrite (decode_ops_cons _ _ _ Hg) in Hd. rewrite Hd.
+  assert (Hn: nth_error (map (fun o => (true, op_line o)) (pre ++ op :: decode_ops pc')) (length pre) = Some (true, op_line op)).
+  { rewrite map_app. rewrite nth_error_app2 by (rewrite map_length; lia). rewrite map_length, Nat.sub_diag. reflexivity. }
+  rewrite marked_is_nth.
+  - rewrite Hs, Nat2Z.id. rewrite (number_from_nth _ 0 _ _ _ Hn). rewrite Z.add_0_l. reflexivity.
+  - rewrite number_from_length, map_length, app_length. cbn [length]. lia.
+Qed.
+
+(* after the last operation nothing is marked *)
+Theorem marker_none_at_end : forall v, marker_inv v -> i_pc v = [] -> marked_line (plain_listing (e_script (i_e v))) (i_seq v) = None.
+Proof.
+  intros v [pre [Hd Hs]] Hp. rewrite Hp, decode_ops_nil, app_nil_r in Hd. apply marked_none_past_end.
+  unfold plain_listing. rewrite number_from_length, map_length, Hd. lia.
+Qed.
+
+(* a successful step keeps the invariant (and stays in the single-script shape) *)
+Theorem marker_inv_step : forall v v', single v -> marker_inv v -> dbg_step c v = (v', SOk) -> single v' /\ marker_inv v'.
+Proof.
+  intros v v' (Ht & Hsucc & Hp2) [pre [Hd Hs]] H. unfold Session.dbg_step in H. rewrite Ht in H.
+  destruct (i_pc v) as [|b r] eqn:Epc.
+  - (* end of the script: only the done flag / error slot change *)
+    rewrite Hp2, Hsucc in H.
+    destruct (negb (cs_empty (e_cond (i_e v)))); [discriminate|]. inversion H; subst v'. clear H.
+    split; [repeat split; assumption|]. exists pre. cbn. split; [exact Hd|exact Hs].
+  - destruct (step_script low_s c (i_e v) (b :: r) false) as [[e1 pc1] st] eqn:Es.
+    destruct st; try discriminate. inversion H; subst v'. clear H.
+    destruct (step_script_pc low_s c _ _ _ _ _ Es) as [op Hg].
+    pose proof (step_script_framed low_s c (i_e v) (b :: r) false) as Hf. cbv zeta in Hf. rewrite Es in Hf. cbn [fst snd] in Hf.
+    destruct Hf as [Hfr _]. unfold frs in Hfr. cbn [fst] in Hfr.
+    split; [repeat split; assumption|].
+    exists (pre ++ [op]). cbn [i_e i_pc i_seq set_seq set_hist upd set_pos e_script].
+    split.
+    + rewrite Hfr, Hd, (decode_ops_cons _ _ _ Hg), <- app_assoc. reflexivity.
+    + rewrite app_length. cbn [length]. lia.
+Qed.
+End Marker.
+
+(* every state reached by successful steps from the start of a single-script session (rewinds return to earlier such states: C04) *)
+Section Reach.
+Variable low_s : bytes -> bool.
+Variable tap_tweak_ok : bytes -> bytes -> bytes -> bool -> bool.
+Variable sha256 : bytes -> bytes.
+Variable c : cfg.
+
+Inductive reach (v0 : ienv) : ienv -> Prop :=
+| reach_refl : reach v0 v0
+| reach_step : forall v v', reach v0 v -> Session.dbg_step low_s tap_tweak_ok sha256 c v = (v', SOk) -> reach v0 v'.
+
+Theorem marker_inv_reachable : forall script stack ed v,
+  i_p2sh (setup_env c script stack [] ed None) = false ->
+  reach (setup_env c script stack [] ed None) v ->
+  single v /\ marker_inv v /\ e_script (i_e v) = script.
+Proof.
+  intros script stack ed v Hp H. induction H as [|v v' Hr IH Hs].
+  - split; [split; [reflexivity|split; [reflexivity|exact Hp]]|]. split; [apply marker_inv_init|reflexivity].
+  - destruct IH as (Hsg & Hinv & Hsc).
+    destruct (marker_inv_step low_s tap_tweak_ok sha256 c v v' Hsg Hinv Hs) as [Hsg' Hinv'].
+    split; [exact Hsg'|]. split; [exact Hinv'|].
+    (* the script never changes *)
+    unfold Session.dbg_step in Hs. destruct Hsg as (Ht & Hsucc & Hp2). rewrite Ht in Hs.
+    destruct (i_pc v) as [|b r] eqn:Epc.
+    + rewrite Hp2, Hsucc in Hs. destruct (negb (cs_empty (e_cond (i_e v)))); [discriminate|]. inversion Hs; subst v'. cbn. exact Hsc.
+    + destruct (step_script low_s c (i_e v) (b :: r) false) as [[e1 pc1] st] eqn:Es. destruct st; try discriminate. inversion Hs; subst v'.
+      pose proof (step_script_framed low_s c (i_e v) (b :: r) false) as Hf. cbv zeta in Hf. rewrite Es in Hf. cbn [fst snd] in Hf.
+      destruct Hf as [Hfr _]. unfold frs in Hfr. cbn [fst] in Hfr. cbn. rewrite Hfr. exact Hsc.
+Qed.
+End Reach.
+
+(* the listing main() builds for such a session is the plain listing of its script *)
+Lemma session_listing_plain : forall c script stack ed,
+  i_p2sh (setup_env c script stack [] ed None) = false ->
+  session_listing c (setup_env c script stack [] ed None) = plain_listing script.
+Proof.
+  intros c script stack ed Hp. unfold session_listing, listing, listing_sections, plain_listing.
+  cbn [i_tce i_succ i_e e_script setup_env]. rewrite Hp.
+  destruct (c_sigver c =? SV_TAPSCRIPT); cbn [map app concat]; rewrite app_nil_r; reflexivity.
+Qed.
